@@ -31,12 +31,13 @@ def main():
         "classes+generics": [object, T.A, T.B, list[T.A], list[T.B], type[T.A], type[T.B], list],
         "classes+dependent": [object, int, bool, terms["Equals"][0], terms["Equals"][4], terms["FuncDep"][0]],
         "classes+wildcard_dependent": [object, tuple, T.Shape[2, T.typing.Any], T.Shape[T.typing.Any, 2], T.Shape[2, 2], T.Shape[T.typing.Any, T.typing.Any]],
+        "classes+crossing_wildcards": [object, tuple, T.Shape[2, 3, T.typing.Any], T.Shape[T.typing.Any, T.typing.Any, 5], T.Shape[2, T.typing.Any, T.typing.Any]],
         "with_unions": [object, T.A, T.E] + terms["Union"][:3] + [terms["Union"][6]],
         "with_intersections": [object, T.B, T.C] + terms["Inter"][:4],
     }
     dts, dcls = T.deferred_terms()
     fams["deferred_references"] = [object, dcls[0]] + dts
-    probes = {"deferred_references": [dcls[1], dcls[2], dcls[3]], "classes": [T.D, T.B, T.A, T.E, T.WithFoo], "classes+generics": [list[T.B], type[T.B], T.B], "classes+dependent": [bool, int], "classes+wildcard_dependent": [tuple], "with_unions": [T.D, T.E, T.A], "with_intersections": [T.D, T.B]}
+    probes = {"deferred_references": [dcls[1], dcls[2], dcls[3]], "classes": [T.D, T.B, T.A, T.E, T.WithFoo], "classes+generics": [list[T.B], type[T.B], T.B], "classes+dependent": [bool, int], "classes+wildcard_dependent": [tuple], "classes+crossing_wildcards": [tuple], "with_unions": [T.D, T.E, T.A], "with_intersections": [T.D, T.B]}
     failing, n = [], 0
     for fam, types in fams.items():
         bad = []
